@@ -77,6 +77,10 @@ def tomtom_case(case, ctx):
                 Ql[i_] = q_.copy()
             ctx.label("list_objects_reused_after_in_place_edit")
         res = TT.tomtom(Ql, Tl, **kw)
+        if not (len(Ql) == len(Qs) and len(Tl) == len(Ts) and all(numpy.array_equal(a, b) for a, b in zip(Ql + Tl, Qs + Ts))):
+            raise Violation("tomtom-inputs-modified", "the query / target arrays (or lists) handed to tomtom were changed")
+    except Violation:
+        raise
     except Exception as e:  # noqa: BLE001
         if degenerate:
             raise Rejected() from e
